@@ -117,13 +117,13 @@ def small_ops():
     a, b = ATTRS[0], ATTRS[1]
     return [dict(kind='ipv4', nlri=[p1], attr=a), dict(kind='ipv4', nlri=[p1], attr=b), dict(kind='ipv4', nlri=[p2], attr=a),
             dict(kind='ipv4', withdraw=[p1]), dict(kind='ipv4', withdraw=[p2]), dict(kind='ipv4', nlri=[p1, p2], attr=a),
-            dict(kind='ipv4', nlri=[p2], attr=b, withdraw=[p1]), dict(kind='DROP')]
+            dict(kind='ipv4', nlri=[p2], attr=b, withdraw=[p1]), dict(kind='DROP'), dict(kind='DROP', how='peer-notification')]
 
 
 def random_op(rng):
     r = rng.random()
-    if r < 0.06:
-        return dict(kind='DROP')
+    if r < 0.08:
+        return dict(kind='DROP', how=rng.choice(['peer-close', 'peer-notification', 'hold-expiry', 'stop-start']))
     if r < 0.6:
         op = dict(kind='ipv4')
         x = rng.random()
@@ -139,10 +139,15 @@ def random_op(rng):
     k = 'flowspec' if r < 0.8 else 'mpls_vpn'
     pool = FS if k == 'flowspec' else VPN
     op = dict(kind=k, attr={kk: v for kk, v in rng.choice(ATTRS).items()}, nexthop='10.0.0.2')
-    if rng.random() < 0.65:
+    x = rng.random()
+    if x < 0.55:
         op['routes'] = rng.sample(pool, rng.choice([1, 1, 2]))
-    else:
+    elif x < 0.8:
         op['withdraw_routes'] = rng.sample(pool, rng.choice([1, 2]))
+    else:
+        # MP_UNREACH and MP_REACH of the same family in one UPDATE (different routes)
+        both = rng.sample(pool, 2)
+        op['routes'], op['withdraw_routes'] = [both[0]], [both[1]]
     return op
 
 
@@ -170,10 +175,20 @@ class Runner(object):
         w = self.w
         if op['kind'] == 'DROP':
             pr = w.fsm.protocol
-            w.peer_close(self.tr, clean=True)
+            how = op.get('how', 'peer-close')
+            if how == 'peer-close':
+                w.peer_close(self.tr, clean=True)
+            elif how == 'peer-notification':
+                w.deliver(refenc.notification(6, 2), self.tr)           # the agent closes the connection itself
+            elif how == 'hold-expiry':
+                w.advance(95)
+            else:
+                w.stop()
+                w.start()
             self.stats['drops'] += 1
+            self.stats['drops_' + how] = self.stats.get('drops_' + how, 0) + 1
             if pr.adj_rib_in.get('ipv4') or pr.adj_rib_out.get('ipv4'):
-                self.bad('rib-not-empty-after-drop', ['side:' + self.side], 'after the session dropped adj_rib_in has %d and adj_rib_out %d IPv4 entries' % (
+                self.bad('rib-not-empty-after-drop', ['side:' + self.side, 'how:' + how], 'after the session dropped (' + how + ') adj_rib_in has %d and adj_rib_out %d IPv4 entries' % (
                     len(pr.adj_rib_in.get('ipv4') or {}), len(pr.adj_rib_out.get('ipv4') or {})), seq)
             self.model.reset()
             self.connect()
